@@ -14,6 +14,7 @@ sys.dont_write_bytecode = True
 
 VERIF_DIR = os.path.dirname(os.path.dirname(os.path.abspath(__file__)))
 REPO = os.path.abspath(os.environ.get("VERIF_REPO", "/repo"))
+OUT_DIR = os.path.abspath(os.environ.get("VERIF_OUT", VERIF_DIR))   # evidence/ and replays/ go here
 
 
 class HarnessError(Exception):
